@@ -252,6 +252,39 @@ class World(object):
             conv_src.pattern = r"\S+"
             register_type(Src=conv_src)
             pattern = u"do {src:Src}"
+        if o.get("typed_values"):
+            # the step parameter is converted to a value of some Python type (symbolic: one kind per run); the step function
+            # gets that value and finds its way back to the source id
+            from behave.matchers import register_type
+            import datetime, decimal, fractions
+            w = self
+            back = {}
+
+            class Money(object):
+                def __init__(self, n):
+                    self.n = n
+
+            def conv_val(text):
+                kind = w.sx.choice("arg_kind", list(o["typed_values"]))
+                kind = kind if isinstance(kind, str) else kind.concretize()
+                n = len(back) + 1
+                v = {"str": lambda: text, "int": lambda: n, "float": lambda: n + 0.5,
+                     "Decimal": lambda: decimal.Decimal(n) / 4, "Fraction": lambda: fractions.Fraction(n, 7), "complex": lambda: complex(n, 1),
+                     "date": lambda: datetime.date(2024, 1, n), "object": lambda: Money(n), "list": lambda: [n, text]}[kind]()
+                back[(kind, repr(v) if kind != "object" else id(v))] = (text, v)
+                w._typed_kind = kind
+                return v
+            conv_val.pattern = r"\S+"
+            register_type(Val=conv_val)
+            pattern = u"do {src:Val}"
+            inner = stepfn
+
+            def typed_stepfn(context, src):
+                for (kind, key), (text, v) in back.items():
+                    if v is src or (kind != "object" and type(v) is type(src) and v == src):
+                        return inner(context, text)
+                raise AssertionError("step function received %r, which no converter call produced" % (src,))
+            stepfn = typed_stepfn
         reg.add_step_definition("step", pattern, stepfn)
         if o.get("gated", True):
             reg.steps["step"][0] = GatedMatcher(reg.steps["step"][0], self)
